@@ -18,6 +18,18 @@ func generate(run *hx.Run) []*Case {
 	for _, g := range generators {
 		g(run, add)
 	}
+	// every handler and client read gets the frame-limit / varint cases (scenario = the one its raw cases use)
+	seenRaw := map[string]bool{}
+	var order [][2]string
+	for _, c := range cases {
+		if c.Kind == "raw" && !seenRaw[c.H+"|"+c.Scen] {
+			seenRaw[c.H+"|"+c.Scen] = true
+			order = append(order, [2]string{c.H, c.Scen})
+		}
+	}
+	for _, hs := range order {
+		cases = append(cases, frameLimitCases(hs[0], hs[1])...)
+	}
 	if only := os.Getenv("C37_ONLY"); only != "" { // development aid: one handler family
 		var f []*Case
 		for _, c := range cases {
